@@ -48,6 +48,24 @@ def run(ctx):
         ctx.count('order', total, [(n, tuple(map(tuple, s))) for n, s in o['subscribers'].items()],
                   final_version=o['final_version'], subscribers=len(o['subscribers']))
         ctx.sample({'stream': 'order', 'first_deliveries': next(iter(o['subscribers'].values()))[:8]})
+    # ---- stream `slow-subscriber`: async subscriptions manager, one subscriber's round trip takes seconds (real time)
+    sl = ctx.impl('c04_async_impl', {'handle': inv['metric'][0], 'delay': 4.0 if not ctx.thorough else 9.0}, timeout=300)
+    if sl.get('_crash'):
+        ctx.broken('correspondence', 'slow-subscriber: implementation run crashed', sl['stderr'][-800:])
+    else:
+        for netloc, vs in sl['arrival_order'].items():
+            bad = next((i for i in range(1, len(vs)) if vs[i] < vs[i - 1]), None)
+            if bad is not None:
+                ctx.fail(f'slow-subscriber: {"the slow" if netloc == sl["slow_subscriber"] else "a"} subscriber received MdibVersion '
+                         f'{vs[bad]} after {vs[bad - 1]} (arrival order {vs}; the first report was delayed {sl["delay"]} s, the '
+                         f'commit returned after {sl["commit_blocked_s"]} s)',
+                         {'stream': 'slow-subscriber', 'clause': 'out of order'}, {'stream': 'slow-subscriber', 'case': sl})
+            if sorted(vs) != sl['versions']:
+                ctx.fail(f'slow-subscriber: subscriber {netloc} received versions {vs}, committed were {sl["versions"]}',
+                         {'stream': 'slow-subscriber', 'clause': 'lost or duplicated'}, {'stream': 'slow-subscriber', 'case': sl})
+        ctx.count('slow-subscriber', sum(len(v) for v in sl['arrival_order'].values()),
+                  [(n, tuple(v)) for n, v in sl['arrival_order'].items()], delay_s=sl['delay'],
+                  commit_blocked_s=sl['commit_blocked_s'])
     # ---- stream `retained`: copies published by an earlier commit keep their values (shared with C03's alias stream)
     hs = ctx.rng.sample(inv['metric'] + inv['alert'] + inv['comp'], ctx.n(4, 20))
     a = ctx.impl('c03_alias_impl', {'handles': hs, 'max_paths': ctx.n(4, 20), 'seed': ctx.seed}, timeout=600)
@@ -72,12 +90,15 @@ def run(ctx):
              'on the wire is parsed by the real reader (schema validation on) and compared with the committed changes: '
              'version group, exactly the changed states / descriptors, each once, committed values, grouped under their MDS, '
              'every description report part with every changed state of its descriptor; order: real writer threads commit '
-             'concurrently, two subscribers, delivery order per subscriber must be non-decreasing and complete; retained: '
+             'concurrently, two subscribers, delivery order per subscriber must be non-decreasing and complete; slow-subscriber: '
+             'the ASYNC subscriptions manager with a fake aiohttp client whose first round trip to one subscriber takes 4 s '
+             '(thorough 9 s) of real time while further transactions commit: arrival order per subscriber; retained: '
              'copies published by a commit keep their values under later nested writes; distinct = distinct traces / '
              'delivery sequences / (handle, path) pairs',
         assumptions=['the order theorem is over the traced lock-step programs; the real-thread stream samples schedules only',
                      'XSD validity is judged by lxml with the bundled schemas (oracle, not a theorem)'],
         trusted_base=['translator harness/impl/gen_conc_programs.py (traced commit program)', 'harness/mdibrun.py report parsing',
                       'loop-back transport'],
-        not_modelled=['asynchronous subscription manager (asyncio / aiohttp) is not driven by the loop-back transport',
+        not_modelled=['the asynchronous subscription manager (asyncio) is exercised by the slow-subscriber stream only (oracle, no model; a give-up '
+                      'timeout longer than the injected delay would not be seen)',
                       'report content theorem is for state transactions; context / descriptor reports by oracle + correspondence'])
